@@ -1391,3 +1391,20 @@ Proof.
   destruct (build_sizes_types ss H) as [D T]. rewrite D, T. cbn [andb].
   exact (build_char_ends ss 1 [] [] (Forall_nil _) H).
 Qed.
+
+(* ================================================================== fuel is irrelevant once it suffices *)
+(* used by the correspondence harness, which evaluates the model with a fuel of a few thousand
+   requests instead of 0x10000 - start: any fuel on which the loop does not run out gives the
+   result every larger fuel gives *)
+Lemma loop_fuel_mono cond proc raise_other r : forall f k n start acc,
+  fst (loop cond proc raise_other r f n start acc) <> OutOfFuel ->
+  loop cond proc raise_other r (f + k) n start acc = loop cond proc raise_other r f n start acc.
+Proof.
+  induction f as [|f IH]; intros k n start acc H.
+  - cbn [loop] in H. destruct k as [|k]; [reflexivity|]. cbn [plus loop].
+    destruct (cond start); cbn [negb fst] in *; [congruence|reflexivity].
+  - cbn [plus loop] in *. destruct (cond start); cbn [negb] in *; [|reflexivity].
+    destruct (r n start) as [|c|es]; [reflexivity|reflexivity|].
+    destruct es as [|e es]; [reflexivity|].
+    destruct (proc start (e :: es)); try reflexivity. apply IH. exact H.
+Qed.
